@@ -178,11 +178,11 @@ def env_faults(rng, events, op, files, outcome):
             if "regex" in seen:
                 continue
             seen.add("regex")
-            out.append({"kind": "regex_timeout", "duration": 61 + rng.randrange(0, 10000), "after": 0, "label": f"regex_timeout@0:{ev['fn']}"})
+            out.append({"kind": "regex_timeout", "duration": 61 + rng.randrange(0, 10000), "after": 0, "label": f"regex_timeout_at_start:{ev['fn']}"})
             if ev["fn"] == "finditer":
                 n = int(str(ev["res"]).split("@")[-1]) if "@" in str(ev["res"]) else 0
                 if n >= 1:
-                    out.append({"kind": "regex_timeout", "duration": 61 + rng.randrange(0, 10000), "after": rng.randrange(1, n + 1), "label": "regex_timeout@k:finditer"})
+                    out.append({"kind": "regex_timeout", "duration": 61 + rng.randrange(0, 10000), "after": rng.randrange(1, n + 1), "label": "regex_timeout_after_k_matches:finditer"})
     if op["op"] == "cli":
         for kind in ("log_mkdir_eacces", "log_mkdir_enospc", "log_mkdir_erofs"):
             out.append({"kind": kind, "target": "logs/*", "nth": rng.choice([1, 1, 2, 3]), "label": kind})
